@@ -152,9 +152,11 @@ def run_obj(EoN, nx, case):
         t, D = r
         return ('OK', [(F(float(x)), [int(D[s][k]) for s in ps]) for k, x in enumerate(t)])
 
-    def q_summary(nodelist):
+    forms = [list, tuple, iter, lambda l: (u for u in l), lambda l: dict.fromkeys(l).keys()]
+    def q_summary(nodelist, form=list):
+        # the listed nodes may be handed over as any iterable, also a one-shot iterator such as G.neighbors(u) or a generator
         try:
-            r = fmt_summary(sim.summary(nodelist) if nodelist is not None else sim.summary())
+            r = fmt_summary(sim.summary(form(nodelist)) if nodelist is not None else sim.summary())
         except Exception as e:
             r = ('ERR', type(e).__name__)
         lines.append('SUM %s %s' % (obj, '0' if nodelist is None else '1 %d %s' % (len(nodelist), ' '.join(str(lab.id(u)) for u in nodelist))))
@@ -168,8 +170,9 @@ def run_obj(EoN, nx, case):
                 o = ('summary', 'summary(%s) = %r; counting the listed nodes by their status at each change time gives %r' % ('all nodes' if nodelist is None else nodelist, r[1], exp[1]))
         oracle.append(o)
     q_summary(None)
-    for sub in case['subsets']:
-        q_summary([labels[i] for i in sub])
+    for k, sub in enumerate(case['subsets']):
+        subl = [labels[i] for i in sub]
+        q_summary(subl, forms[(k + len(labels)) % len(forms)] if len(set(map(repr, subl))) == len(subl) else list)
     # t(), S(), I(), R()
     cols = []
     for nm in ('t', 'S', 'I', 'R'):
